@@ -925,8 +925,7 @@ class Check:
         cov["oracle_failures"] = len(oracle_fail)
         if not cov.get("samples") and cov.get("custom"):
             cov["samples"] = [v.get("sample") for v in cov["custom"].values() if v.get("sample")] or ["(custom runner)"]
-        if cov["distinct_nontrivial"] == 0:
-            cov["distinct_nontrivial"] = sum(int(v.get("distinct_nontrivial", 0)) for v in cov.get("custom", {}).values())
+        cov["distinct_nontrivial"] += sum(int(v.get("distinct_nontrivial", 0)) for v in cov.get("custom", {}).values())
 
         # 7. verdict
         reported = set()
